@@ -575,4 +575,37 @@ theorem gen_checkInfoParse (bs : Bytes) :
         simp only [h0, h1, if_false]
         rfl
 
+/-! ### the index header -/
+
+/-- **The index header is parsed as the source parses it**: `IndexHeader::parse`
+    (`reader/directory_pack/index.rs`) translated on every run is `IndexInfo.decode` of the reader model on every
+    byte string: store id, entry count, first entry (4 bytes each, little endian), 4 bytes of free data, the
+    key-property byte, the name as a p-string. -/
+theorem gen_indexHeaderParse (bs : Bytes) :
+    (Generated.indexHeaderParse bs).map' (fun r => (⟨r.1.1, r.1.2.1, r.1.2.2.1, r.1.2.2.2.1, r.1.2.2.2.2.1, r.1.2.2.2.2.2⟩ : IndexInfo)) =
+      IndexInfo.decode bs := by
+  unfold Generated.indexHeaderParse IndexInfo.decode
+  simp only [bind, Outcome.map'_bind]
+  cases h1 : takeLE bs 4 with
+  | ok a =>
+    simp only [Outcome.bind_ok]
+    cases h2 : takeLE a.2 4 with
+    | ok b =>
+      simp only [Outcome.bind_ok]
+      cases h3 : takeLE b.2 4 with
+      | ok c =>
+        simp only [Outcome.bind_ok]
+        cases h4 : takeBytes c.2 4 with
+        | ok d =>
+          simp only [Outcome.bind_ok]
+          cases h5 : takeLE d.2 1 with
+          | ok e =>
+            simp only [Outcome.bind_ok]
+            cases takePString e.2 <;> rfl
+          | _ => rfl
+        | _ => rfl
+      | _ => rfl
+    | _ => rfl
+  | _ => rfl
+
 end Jubako
